@@ -74,6 +74,12 @@ var levelTpls = []levelTpl{
 		x := valTok(t)
 		return [][]string{{x}, {"--host=example.org", x}, {"--host", "example.org", x}}[t.Draw(3)]
 	}},
+	{8, "-e...", func() []*Decl {
+		// a mandatory list option that the environment may satisfy - when its variable holds a valid list
+		return []*Decl{{Kind: KInts, Name: "e each", EnvVars: []int{0}}}
+	}, func(t *Tape) []string {
+		return [][]string{{"-e=5"}, {"--each", "7", "-e3"}, {"-e", "1", "-e", "2"}}[t.Draw(3)]
+	}},
 }
 
 type TreeOpts struct {
